@@ -34,19 +34,35 @@ func (p Proof) equal(input Proof) error {
 	}
 
 	for i, proof := range p {
+		in := input[i]
+		if proof == nil || in == nil {
+			// a missing component only equals another missing component
+			if proof != nil || in != nil {
+				return ErrInvalidProof
+			}
+			continue
+		}
+
 		pNodes := proof.Nodes()
-		inputNodes := input[i].Nodes()
+		inputNodes := in.Nodes()
+		if len(pNodes) != len(inputNodes) {
+			return ErrInvalidProof
+		}
 		for i, node := range pNodes {
 			if !bytes.Equal(node, inputNodes[i]) {
 				return ErrInvalidProof
 			}
 		}
 
-		if proof.Start() != input[i].Start() || proof.End() != input[i].End() {
+		if proof.Start() != in.Start() || proof.End() != in.End() {
 			return ErrInvalidProof
 		}
 
-		if !bytes.Equal(proof.LeafHash(), input[i].LeafHash()) {
+		if !bytes.Equal(proof.LeafHash(), in.LeafHash()) {
+			return ErrInvalidProof
+		}
+
+		if proof.IsMaxNamespaceIDIgnored() != in.IsMaxNamespaceIDIgnored() {
 			return ErrInvalidProof
 		}
 	}
